@@ -146,6 +146,65 @@ def reachable_interpreted(irp, entry, summaries):
     return out
 
 
+def order_relevant_registers(irp, funcs, summaries):
+    """text-range fields of the URI whose loaded value may reach a comparison, arithmetic or a dereference:
+    every load that is not the right-hand side of a plain copy into another range field and not an argument of a
+    summarised callee"""
+    out = set()
+
+    def reg_of(e):
+        n = strip_casts(e)
+        if n is not None and n.k == 'member' and n.v in ('first', 'afterLast'):
+            path = [n.v]
+            b = strip_casts(n.c[0])
+            while b is not None and b.k == 'member' and not (b.x and b.x.get('arrow')):
+                path.append(b.v)
+                b = strip_casts(b.c[0])
+            if b is not None and b.k == 'member' and b.x and b.x.get('arrow'):
+                path.append(b.v)
+                b2 = strip_casts(b.c[0])
+                if b2 is not None and b2.k == 'member' and b2.v == 'uri':
+                    return tuple(reversed(path))
+                if 'UriUri' in ((b.c[0].ty or '')):
+                    return tuple(reversed(path))
+        return None
+
+    def loads(e, acc):
+        if e is None:
+            return
+        for n in e.walk():
+            if n.k == 'cast' and n.v == 'LValueToRValue':
+                r = reg_of(n.c[0])
+                if r:
+                    acc.append(r)
+    for name in funcs:
+        f = irp.funcs[name]
+        for b in f.blocks:
+            for i in b.ins:
+                if i.op == 'assign':
+                    src = strip_casts(i.src)
+                    if reg_of(i.dst) and src is not None and reg_of(src):
+                        continue            # plain copy between range fields
+                    acc = []
+                    loads(i.src, acc)
+                    loads(i.dst, acc)
+                    out.update(acc)
+                elif i.op == 'call':
+                    t = call_target(i)
+                    if t in summaries:
+                        continue
+                    acc = []
+                    for a in i.args:
+                        loads(a, acc)
+                    out.update(acc)
+            if b.term and b.term[0] in ('br', 'switch', 'ret') and b.term[1] is not None:
+                acc = []
+                loads(b.term[1], acc)
+                # NULL tests do not need the position
+                out.update(r for r in acc if False)
+    return out
+
+
 def seed_sets(irp, funcs):
     sets = []
     for n in funcs:
@@ -224,7 +283,7 @@ def al_key(al):
 
 
 def explore(ctx, suf, entry, setup, monitor, base_class_of, nul=False, max_states=3000000, extra_sets=(), log=None, workers=1,
-            needs_cache=None):
+            needs_cache=None, exact_regs=False):
     """monitor: object with init(), on_symbol(m, cls, alphabet), on_eof(m), final(m, st, value, machine, result, node)"""
     irp = ctx.irp
     summaries = make_summaries(suf)
@@ -235,6 +294,7 @@ def explore(ctx, suf, entry, setup, monitor, base_class_of, nul=False, max_state
     restarts = 0
     while True:
         mach = Runner(ctx, suf, al, funcs, summaries, nul_terminated=nul)
+        mach.exact_regs = order_relevant_registers(irp, funcs, summaries) if exact_regs else set()
         try:
             pre = None
             if mach.cellwatch:
